@@ -445,7 +445,7 @@ func checkSnapshot(p *Program, r *Result, fn *ssa.Function, val ssa.Value, what 
 			// the snapshot may be taken at the end of a transparent helper that returns it (e.g. "end the data section and
 			// tell me where the summary starts"): what is written next is what follows the Size() call inside the helper
 			// and, once the helper returns, what follows its call
-			if hsc, site := helperSnapshot(p, v); hsc != nil {
+			if hsc, site, zeroRet := helperSnapshot(p, v); hsc != nil && (!zeroRet || zeroOK) {
 				next = nextSinkCalls(p, hsc.Parent(), hsc, isSink)
 				if next["<exit>"] {
 					delete(next, "<exit>")
@@ -992,7 +992,7 @@ func checkWriteRecordCount(p *Program, r *Result) {
 
 // helperSnapshot: v is (a component of) the result of a transparent helper all of whose successful returns hand back a
 // Size() snapshot taken inside it; returns that Size() call and the helper's call site.
-func helperSnapshot(p *Program, v ssa.Value) (*ssa.Call, *ssa.Call) {
+func helperSnapshot(p *Program, v ssa.Value) (*ssa.Call, *ssa.Call, bool) {
 	v = stripConv(v)
 	idx := 0
 	if ex, ok := v.(*ssa.Extract); ok {
@@ -1001,12 +1001,13 @@ func helperSnapshot(p *Program, v ssa.Value) (*ssa.Call, *ssa.Call) {
 	}
 	site, ok := v.(*ssa.Call)
 	if !ok {
-		return nil, nil
+		return nil, nil, false
 	}
 	g := site.Call.StaticCallee()
 	if g == nil || !p.transparent(g) {
-		return nil, nil
+		return nil, nil, false
 	}
+	zeroRet := false
 	var found *ssa.Call
 	for _, in := range instrsOf(g) {
 		ret, ok := in.(*ssa.Return)
@@ -1020,13 +1021,17 @@ func helperSnapshot(p *Program, v ssa.Value) (*ssa.Call, *ssa.Call) {
 		if c, isC := stripConv(ret.Results[idx]).(*ssa.Const); isC && c.Value != nil && n > 1 && !isNilConst(ret.Results[n-1]) {
 			continue // `return 0, err`
 		}
+		if c, isC := stripConv(ret.Results[idx]).(*ssa.Const); isC && c.Value != nil && c.Value.String() == "0" {
+			zeroRet = true // `return 0, nil`: the helper reports "nothing written" (allowed where 0 is a legal value)
+			continue
+		}
 		sc := sizeCallOf(ret.Results[idx])
 		if sc == nil || (found != nil && found != sc) {
-			return nil, nil
+			return nil, nil, false
 		}
 		found = sc
 	}
-	return found, site
+	return found, site, zeroRet
 }
 
 // argSource describes where a helper takes a value from: its i-th parameter, or field f of its i-th parameter (a small
